@@ -93,10 +93,7 @@ Print Assumptions C18_tree_flattening_injective.
 (* every group is an entry of the dictionary, whatever it holds *)
 Theorem C18_every_group_is_a_key :
   forall t p ds, In (p, ds) (flat t) -> In (replace_char slash hash (render p), ds) (tree_to_dict slash hash t).
-Proof.
-  intros t p ds H. unfold tree_to_dict, map_keys. apply in_map_iff.
-  exists (render p, ds). split; [reflexivity | apply every_group_is_a_key; exact H].
-Qed.
+Proof. exact (every_group_is_an_escaped_key slash hash). Qed.
 Print Assumptions C18_every_group_is_a_key.
 
 (* ------------------------------------------------------------------ refutations (witnesses) *)
@@ -168,13 +165,7 @@ Theorem C18_load_sees_saved :
   forall T d running, d_kind d = T -> (forall f, strict_dict T f (d_cont d f)) ->
   exists loaded, from_dict src_tables (via_file src_tables (to_dict src_tables d)) = Some loaded /\
                  forall f, d_cont (load_detector_effect src_tables running loaded) f = d_cont d f.
-Proof.
-  intros T d running Hd HP.
-  destruct (load_sees_saved src_tables T all_fields) with (d := d) (running := running) as [l [E Q]]; auto.
-  - destruct T; vm_compute; reflexivity.
-  - intros f. destruct f; vm_compute; reflexivity.
-  - exists l. split; [exact E|]. intros f. apply Q. destruct f; simpl; auto 10.
-Qed.
+Proof. intros T. apply load_sees_saved_all; destruct T; vm_compute; reflexivity. Qed.
 Print Assumptions C18_load_sees_saved.
 
 (* ------------------------------------------------------------------ non-vacuity *)
